@@ -161,7 +161,11 @@ def main():
         cctx = core.Ctx(cid, 0, 1, 'quick', int(seed))
         cctx.sandbox_dir = sandbox_dir
         mod.setup(cctx)
-        extra = {'C06': (0,), 'C03': (10000, False), 'C01': (None, False)}.get(cid, ())      # the remaining fields of that check's text-carrying case kind
+        known = set(core.known_findings(cid))       # mechanism keys listed in known_findings.txt: violations attributed to them do not fire the oracle
+        from decimal import Decimal as _D
+        extra = {'C06': (0,), 'C03': (10000, False), 'C01': (None, False),
+                 'C04': ({'a': 10 ** 30 + 7, 'b': 2.5, 'c': [10 ** 30 + 7, _D('1234567890123456789012345678')], 's': 'ab', 'l': [1, 2], 'n': _D('1E+1000'), 't': True, 'm': 3},)
+                 }.get(cid, ())      # the remaining fields of that check's text-carrying case kind
 
         def target_check(data):
             try:
@@ -179,7 +183,7 @@ def main():
                 mod.run_case((kind, text) + extra, cctx)
             except RecursionError:
                 return
-            if any(v['finding'] is None for v in cctx.violations):
+            if any(v['finding'] not in known for v in cctx.violations):
                 raise OracleFired(cctx.violations[0]['what'])
         target = target_check
 
